@@ -1,4 +1,4 @@
-CONSTANT Dev = {"StandalonePP"}
+CONSTANTS Dev = {"StandalonePP"} Ablate = {}
 INIT Init
 NEXT Next
 CHECK_DEADLOCK FALSE
